@@ -90,7 +90,15 @@ META['rule'] += ('; fragments: records of tasks sharing a source made to diverge
                  'partial, bound method, extra defaults, and a user-written UptodateCalculator (= result_dep); monitors-only '
                  'scenario families counted as scenario(monitors-only):* : oddfiles (directory as file_dep / target, dangling '
                  'link as file_dep / target, mtime 0 with checker switch, equal mtimes) and utdtime (tools.timeout int / '
-                 'timedelta / 0, check_timestamp_unchanged eq / ge / watched mtime 0, config_changed(dict, encoder=))')
+                 'timedelta / 0, check_timestamp_unchanged eq / ge / watched mtime 0, config_changed(dict, encoder=))'
+                 '; round 6 (opt-in case key objlife, 30% of the random histories, own random stream; modelled, K applies): doit '
+                 'used as a library -- all commands of a history in ONE process with the uptodate helper OBJECTS (result_dep, '
+                 'user UptodateCalculator, config_changed, run_once, callables / tuples) created once and reused in the task '
+                 'dicts of every load (module: one object per distinct item shared by all tasks; task: one per task and item) '
+                 'while results / configs / files change between the commands; the same for the monitors-only families as '
+                 'scenario(monitors-only):{utdtime,dictres,group}:*+objects-live-across-commands (tools.timeout, '
+                 'check_timestamp_unchanged, config_changed(dict, encoder=) over a dict changed in place, result_dep on a task '
+                 'with dict results / on a group)')
 META['level_note'] += ('  The ghost `saw` of an execution is the file system AFTER the action ran (what save_success '
                        'reads), so an action that rewrites its own file_dep is judged against the content it left.  '
                        'An exact restore of an older (content, mtime) pair is not in the model\'s alphabet (edits always '
@@ -104,7 +112,7 @@ def run(ctx):
                            macro_len=(3 if quick and ctx.boost == 1 else 4),
                            shared_len=(3 if quick and ctx.boost == 1 else 4),
                            utd_len=(3 if quick and ctx.boost == 1 else 4),
-                           parallel_share=0.0, n_info=(20 if quick else 300))
+                           parallel_share=0.0, n_info=(20 if quick else 300), objlife_share=0.3)
 
 
 def search(ctx):
